@@ -77,6 +77,32 @@ def fed_query(rng, single=False):
     return text, ordered, g.features
 
 
+def isnull_outer(rng):
+    """Outer joins across integrations with IS [NOT] NULL tests on either side in WHERE (the anti-join idiom): a test on the
+    NULL-extended side must see the joined row, not the table's own rows."""
+    r = rng
+    kinds = ['LEFT JOIN', 'LEFT OUTER JOIN', 'RIGHT JOIN', 'RIGHT OUTER JOIN', 'FULL JOIN', 'FULL OUTER JOIN']
+    t1, t2 = r.choice([('t1', 't2'), ('t2', 't1'), ('t1', 't3'), ('t3', 't2')])
+    c1, c2 = ('x' if t1 == 't3' else 'a'), ('x' if t2 == 't3' else 'a')
+    frm = f'{HOME[t1]}.{t1} AS p {r.choice(kinds)} {HOME[t2]}.{t2} AS q ON p.id = q.{r.choice(["id", c2])}'
+    scope = [('p', c1), ('q', c2)]
+    if r.random() < 0.3:
+        t3 = r.choice(['t1', 't2', 't3'])
+        c3 = 'x' if t3 == 't3' else 'a'
+        frm += f' {r.choice(kinds + ["JOIN"])} {HOME[t3]}.{t3} AS w ON w.id = {r.choice(["p", "q"])}.id'
+        scope.append(('w', c3))
+    conds = []
+    for _ in range(r.choice([1, 1, 2])):
+        al, c = r.choice(scope)
+        conds.append(f'{al}.{r.choice(["id", c])} IS {r.choice(["", "", "NOT "])}NULL')
+    if r.random() < 0.4:
+        al, c = r.choice(scope)
+        conds.append(f'{al}.{c} {r.choice([">", "<", "="])} {r.choice([0, 1, 2])}')
+    r.shuffle(conds)
+    tg = ', '.join(f'{al}.id AS id_{al}, {al}.{c} AS v_{al}' for al, c in scope)
+    return f'SELECT {tg} FROM {frm} WHERE ' + ' AND '.join(conds)
+
+
 def model_join(rng):
     """Table(s) joined with a non-timeseries model.  Returns (text, info)."""
     r = rng
